@@ -47,7 +47,21 @@ SPEC = {
             "length 8/10 + random; scoped_fd: every sequence of <=4/5 of 12 operations on two objects against an ownership "
             "model (close() log per descriptor number, /proc/self/fd before==after); Poll: every add/remove history of length "
             "<=6/7 over 3 descriptors x 2 event masks (9 ops per step) + histories <=4/5 with remove(fd,close_fd=true), observed "
-            "through empty() and poll(0) on always-ready descriptors against std::map<int,short>. "
+            "through empty() and poll(0) on always-ready descriptors against std::map<int,short>. LONG HISTORIES / SIZE LADDERS "
+            "(library algorithms switch behaviour at 16, 15/16, 13/29/59/127/257/541, 2^k): Poll histories with runs of k consecutive "
+            "add() calls for every k in 1..70, 95..97, 127..129, 255..257, 299..301, 511..513 over 1, 2, 3, 5, 8, 16, 17, 40 "
+            "descriptors (sockets ready for IN+OUT, pipe ends ready for IN only / OUT only / never) x 6 run patterns (round robin "
+            "up/down, random, one descriptor re-added with alternating masks, blocks, many stale adds then a final pass) x 5 "
+            "observation modes (after the run; empty() then a run of removes; one remove first; several runs with the observation "
+            "deferred to the very end; at random points), runs of removes after m=1..40 descriptors were registered 1/2/3/17 times, "
+            "16000/200000 random histories of up to 600 operations with sticky operation kinds and observation probability "
+            "0, 1/64, 1/16, 1/4, 3200/40000 histories of up to 200 operations with remove(fd,true) over dup()s of /dev/null "
+            "(close() log vs model); reference for poll(0) = ::poll on the model's map. list_directory for every entry count on the "
+            "same ladder (<= 542/4097), unlink(recursive) on flat directories of every size on the ladder (<= 301/1025) and chains of "
+            "depth 1..40, 63..65, 100, 127..129, 200, 300 (700), N scoped_fd objects in a std::vector through regrowth/erase/swap/"
+            "move-assign/insert/destruction for N on the ladder (each descriptor closed exactly once, none while held), fgets loops "
+            "over streams of N lines for N on the ladder (<= 513/4097) x 6 line-length patterns, 960/20000 stream histories of 1..301 "
+            "calls on one stream (cursor model). "
             "distinct_nontrivial = distinct (helper, source kind, plan family/size shape, outcome) classes, e.g. "
             "read_all_fd:file:blockplan:32K:ok, fgets:cookie:len254-257:unterminated:plan-255:ok, poll:final-size2:with-readd.",
     "level_text": "The delivery schedule is the fault being enumerated: within the stated bounds every chunking of the source "
@@ -103,6 +117,18 @@ SPEC = {
         "load_file:lying-st_size:under-reported:size-queried:*", "load_file:lying-st_size:over-reported:size-queried:*",
         "load_file:lying-st_size:true-size:*:ok",
         "poll:final-size0:with-readd", "poll:final-size3:*", "poll:close_fd:*:1-closed",
+        "poll_long:add-run:batch17-64:observed-only-at-the-end", "poll_long:add-run:batch>64:observed-only-at-the-end",
+        "poll_long:add-run:batch17-64:observed-after-the-run", "poll_long:add-run:batch>64:several-runs-observation-deferred",
+        "poll_long:add-run:batch17-64:observed-at-random-points", "poll_long:add-run:batch<=16:*",
+        "poll_long:remove-run:batch>64:*", "poll_long:remove-run:*:empty()-after-every-remove",
+        "poll_long:random:batch>64:observed-only-at-the-end", "poll_long:random:batch17-64:observed-at-random-points",
+        "poll_long:close_fd:batch17-64:*", "poll_long:close_fd:*:>16-closed",
+        "list_directory:ladder:1-16-entries", "list_directory:ladder:17-64-entries", "list_directory:ladder:>257-entries",
+        "unlink_recursive:ladder:flat:17-64-entries", "unlink_recursive:ladder:flat:>257-entries",
+        "unlink_recursive:ladder:depth17-64", "unlink_recursive:ladder:depth>64",
+        "scoped_fd_many:1-16-objects", "scoped_fd_many:17-64-objects", "scoped_fd_many:>257-objects",
+        "fgets:cookie:many-lines:17-64:*:ok", "fgets:cookie:many-lines:>257:*:ok", "fgets:fopen:many-lines:65-257:*:ok",
+        "stream_history:long:17-64-calls", "stream_history:long:>257-calls",
     ],
     "exhaustive": {"quick": False, "thorough": False},
     "exhaustive_note": "enumerated completely: all {1,2,3,F}^8 read plans x 13 payload lengths for read_all(fd); all block plans "
